@@ -857,10 +857,24 @@ namespace
         arr->erase(arr->begin() + from, arr->begin() + to + 1);
         return {};
     }
+    // Arrays have a largest size (d_array::max_size); an operator that would grow one beyond it reports that and does nothing
+    bool array_would_be_too_large(runtime& runtime, size_t newsize)
+    {
+        if (newsize <= d_array::max_size)
+        {
+            return false;
+        }
+        runtime.__logmsg(err::IndexOutOfRange(runtime.context_active().current_frame().diag_info_from_position(), d_array::max_size, newsize));
+        return true;
+    }
     value pushback_array_any(runtime& runtime, value::cref left, value::cref right)
     {
         auto arr = left.data<d_array>();
         auto newindex = arr->size();
+        if (array_would_be_too_large(runtime, arr->size() + 1))
+        {
+            return {};
+        }
         if (!arr->push_back(value(right)))
         {
             runtime.__logmsg(err::ArrayRecursion(runtime.context_active().current_frame().diag_info_from_position()));
@@ -875,6 +889,10 @@ namespace
         auto found = std::find(arr->begin(), arr->end(), right);
         if (found == arr->end())
         {
+            if (array_would_be_too_large(runtime, arr->size() + 1))
+            {
+                return {};
+            }
             if (!arr->push_back(value(right)))
             {
                 runtime.__logmsg(err::ArrayRecursion(runtime.context_active().current_frame().diag_info_from_position()));
@@ -1281,8 +1299,12 @@ namespace
     value plus_array_array(runtime& runtime, value::cref left, value::cref right)
     {
         // create a copy of left array
-        auto arr = left.data<d_array, std::vector<sqf::runtime::value>>();
         auto r = right.data<d_array>();
+        if (array_would_be_too_large(runtime, left.data<d_array>()->size() + r->size()))
+        {
+            return {};
+        }
+        auto arr = left.data<d_array, std::vector<sqf::runtime::value>>();
         arr.insert(arr.end(), r->begin(), r->end());
         return arr;
     }
@@ -1308,6 +1330,10 @@ namespace
     {
         auto arr = left.data<d_array>();
         auto r = right.data<d_array>();
+        if (array_would_be_too_large(runtime, arr->size() + r->size()))
+        {
+            return {};
+        }
         // copy first: appending an array to itself must not insert from a range that is being modified
         auto elements = r->value();
         auto oldsize = arr->size();
